@@ -91,6 +91,8 @@ structure RunReq where
   outcomes : List String
   /-- emulated crash: index of the mutating operation that was cut, and how much of it was applied -/
   crash : Option (Nat × Nat) := none
+  /-- per observed piece (in the order of `order`): did any file operation logged during its evaluation fail? -/
+  pieceFailedOp : List Bool := []
 
 def pSeq7 (ts : List String) : Option (RunReq × List String) :=
   match ts with
@@ -128,12 +130,15 @@ def pSeq7 (ts : List String) : Option (RunReq × List String) :=
                       match r12 with
                       | "U" :: r12 =>
                         (pList pTok r12).bind fun (u, r13) =>
+                          let (v, r13) : List Bool × List String := match r13 with
+                            | "V" :: rest => (match pList pBool rest with | some (v, r) => (v, r) | none => ([], rest))
+                            | _ => ([], r13)
                           match r13 with
                           | "K" :: k :: j :: r14 =>
                             match k.toNat?, j.toNat? with
-                            | some k, some j => some (⟨docs, exp, scan, resize, threads, dirs, files, inodes, q, o, x, g, u, some (k, j)⟩, r14)
+                            | some k, some j => some (⟨docs, exp, scan, resize, threads, dirs, files, inodes, q, o, x, g, u, some (k, j), v⟩, r14)
                             | _, _ => none
-                          | _ => some (⟨docs, exp, scan, resize, threads, dirs, files, inodes, q, o, x, g, u, none⟩, r13)
+                          | _ => some (⟨docs, exp, scan, resize, threads, dirs, files, inodes, q, o, x, g, u, none, v⟩, r13)
                       | _ => none
                     | _ => none
                   | _ => none
